@@ -237,6 +237,19 @@ func vxSkeleton(s int) (ast.Clause, []ast.Atom) {
 		c := ast.Clause{Head: vxA("h", T(0, false))}
 		c.Premises = vxPermute([]ast.Term{vxA("p", T(1, false)), vxNot(vxA("q", T(2, false))), vxNot(vxA("r", T(3, false))), vxA("pp", T(4, false), vxVar("_"))})
 		return c, append(p1, vxA("pp", 1, 2), vxA("pp", 2, 3), vxA("pp", 3, 3), vxA("r", 1), vxA("q", 3))
+	case 11: // h(V) :- p(_) [, q(_)]: the head variable is not bound by the body; its name may look like a
+		// generated fresh variable (X0, X1: what wildcards are replaced with)
+		v := vxVar([]string{"X", "X0", "X1", "X2"}[vxChoose("headvar", 4)])
+		c := ast.Clause{Head: vxA("h", v)}
+		c.Premises = []ast.Term{vxA("p", vxVar("_"))}
+		if vxChoose("two-wildcards", 2) == 1 {
+			c.Premises = append(c.Premises, vxA("q", vxVar("_")))
+		}
+		if vxChoose("bound-too", 2) == 1 {
+			// control: the same head variable also bound by a positive atom
+			c.Premises = append(c.Premises, vxA("p", v))
+		}
+		return c, p1
 	}
 	panic("skeleton")
 }
